@@ -10,8 +10,8 @@ WT=/tmp/mut/rebase-$$; git -C /repo worktree add --detach -q $WT HEAD
 ( git -C $WT apply $SRC/patch.diff 2>/dev/null || git -C $WT apply -C1 --recount $SRC/patch.diff 2>/dev/null || (cd $WT && patch -p1 --fuzz=3 -s < $SRC/patch.diff) ) || { echo "cannot rebase patch"; git -C /repo worktree remove --force $WT; exit 2; }
 git -C $WT diff > $DST/patch.diff
 git -C /repo worktree remove --force $WT
-cp -r $SRC/demo/. $DST/demo/ 2>/dev/null
-CONF=$(grep "CONFIRM $ID " /tmp/seed/confirm-*.log | tail -1 | sed 's/.*CONFIRM //')
+cp -r $SRC/demo/. $DST/demo/ 2>/dev/null; cp $SRC/*.sh $SRC/*.log $SRC/*.txt $DST/demo/ 2>/dev/null
+CONF=$(cat /tmp/seed/confirm-*.log /tmp/seed/cycle-$ID.log 2>/dev/null | grep "CONFIRM $ID " | tail -1 | sed "s/.*CONFIRM //")
 python3 - "$SRC/meta.json" "$DST/meta.json" "$DET" "$RAN" "$CONF" <<'PY'
 import json,sys
 m=json.load(open(sys.argv[1]))
